@@ -355,6 +355,33 @@ func genC09(e *emitter, tier string, seed uint64) {
 			e.runIsolated("C09.output", hex.EncodeToString(o))
 		}
 	}
+	// (2b) counts whose product with a plausible per-element size wraps modulo 2^64 to something small: a bounds test of
+	//      the form count*size <= remaining passes although the count is astronomically large
+	var sizes []uint64
+	for m := uint64(2); m <= 64; m++ {
+		sizes = append(sizes, m)
+	}
+	sizes = append(sizes, 72, 80, 96, 100, 128, 148, 180, 256)
+	for _, m := range sizes {
+		// c = ceil(2^64 / m): c*m mod 2^64 < m
+		c := (1<<64-1)/m + 1
+		tail := r.bytes(int(m) + 40)
+		b3 := append(append([]byte{1, 0, 0, 0}, nonMinimalVarint(c, 9)...), tail...)
+		b4 := append(append([]byte{1, 0, 0, 0, 0}, nonMinimalVarint(c, 9)...), tail...)
+		b5 := append(nonMinimalVarint(c, 9), tail...)
+		b7 := append(append([]byte{1, 0, 0, 0, 0, 0, 0, 0, 0, 0xEF}, nonMinimalVarint(c, 9)...), tail...)
+		b8 := append(append([]byte{1, 0, 0, 0, 0, 0, 0, 0, 0, 0xEF, 0}, nonMinimalVarint(c, 9)...), tail...)
+		for _, x := range []struct {
+			entry string
+			b     []byte
+		}{{"tx", b3}, {"tx", b4}, {"txs", b5}, {"tx", b7}, {"tx", b8}, {"reader", b3}} {
+			if quick && m > 48 && m != 64 && x.entry == "reader" {
+				continue
+			}
+			e.runIsolated("C09.alloc", strconv.Itoa(len(x.b)), x.entry, hex.EncodeToString(x.b))
+			e.note("crafted-product-wrap." + x.entry)
+		}
+	}
 	// (3) random bytes
 	n := 1500
 	if !quick {
